@@ -8,13 +8,13 @@ from ._machine import MachineCheck
 ID = "C17"
 RULE = (
     "C01-style write histories on a calendar, an address book, a second calendar and an optional bare calendar; at generated points a calendar-/addressbook-multiget with 0-8 hrefs (duplicates allowed) drawn from: "
-    "live members, deleted members, never-existing names, fully percent-encoded spellings, absolute URLs, the collection itself, members of other collections, members of the wrong kind, "
+    "live members, deleted members, never-existing names, fully percent-encoded and minimally encoded spellings (sub-delimiters such as ';' left literal), '<name>;1'-style neighbours of live members, absolute URLs, the collection itself, members of other collections, members of the wrong kind, "
     "hrefs outside the route prefix incl. prefix look-alikes ('/davuser/...' for '/dav/'), empty and malformed hrefs; under every prefix and both front ends. Oracle: answers are matched to requests by decoded path; "
     "every distinct requested path is answered exactly once; a live member of the right kind carries GET's ETag and body; everything else carries a 404 (response or data property) and no data; the same request "
     "reversed and each href alone give identical per-href answers. Non-trivial: a request mixing >=1 live, >=1 dead and >=1 out-of-namespace (or, under prefix '/', wrong-kind) href; distinct by (classes, href kinds, prefix, front end)."
 )
 
-KINDS = ["live", "live", "live", "dead", "never", "overencoded", "absolute", "collection", "other-coll", "other-coll", "lookalike", "noprefix", "empty", "malformed"]
+KINDS = ["live", "live", "live", "literal", "literal", "params-suffix", "dead", "never", "overencoded", "absolute", "collection", "other-coll", "other-coll", "lookalike", "noprefix", "empty", "malformed"]
 
 
 @st.composite
@@ -22,7 +22,7 @@ def mg_program(draw):
     cfg = {"prefix": draw(st.sampled_from(["/", "/dav/", "/dav/", "/a/b/"])), "seed": []}
     if draw(st.integers(0, 2)) == 0:
         cfg["seed"].append({"slot": "b1", "bare": True, "meta": "config", "kind": "calendar"})
-    ics = [draw(gen.member_name(".ics", fancy=False)) for _ in range(2)] + [draw(gen.member_name(".ics", fancy=True)) for _ in range(2)]
+    ics = [draw(gen.member_name(".ics", fancy=False)) for _ in range(2)] + [draw(gen.member_name(".ics", fancy=True)), draw(st.sampled_from(["semi;colon.ics", "a;b=c.ics", "x,y.ics", "plus+at@.ics", "q'(r)!.ics"]))]
     vcf = [draw(gen.member_name(".vcf", fancy=False)), draw(gen.member_name(".vcf", fancy=True))]
     bodies = {n: draw(gen.calendar_object(uid=gen.UID_POOL[i]))["raw"] for i, n in enumerate(ics)}
     cards = [draw(gen.vcard())["raw"] for _ in range(2)]
